@@ -56,4 +56,52 @@ def hdrRegion {α} [Add α] [LE α] [LT α] [DecidableLE α] [DecidableLT α]
   | .error e => .error e
   | .ok r => if r.warn then .ok (List.range vals.length, zero, true) else .ok (r.selected, r.last, false)
 
+/-! ### cell-averaged joint density on the grid (`cell_averaged_pdf`, `cell_averaged_joint_pdf`) -/
+
+/-- all multi-indices of a grid with the given axis lengths, in C order (last axis fastest),
+i.e. the order of `np.ravel`. -/
+def multiIndices : List Nat → List (List Nat)
+  | [] => [[]]
+  | n :: rest => (List.range n).flatMap fun i => (multiIndices rest).map fun t => i :: t
+
+/-- cell-averaged density of dimension `i` in the cell with multi-index `I`:
+`(F(x + dx/2) − F(x − dx/2)) / dx` with `dx = coords[i][1] − coords[i][0]`, conditioned on the
+cell-centre value of the conditioning dimension. -/
+def cellAvgAt {α} [Add α] [Sub α] [Mul α] [Div α] [Inhabited α]
+    (half : α) (c : Nat → Option Nat) (F : Nat → Option α → α → α)
+    (coords : Array (Array α)) (I : Array Nat) (i : Nat) : α :=
+  let ax := coords[i]!
+  let x := ax[I[i]!]!
+  let dx := ax[1]! - ax[0]!
+  let g : Option α := match c i with
+    | none => none
+    | some j => some (coords[j]!)[I[j]!]!
+  (F i g (x + half * dx) - F i g (x - half * dx)) / dx
+
+/-- joint cell-averaged density: product over the dimensions in model order, starting from 1
+(`np.multiply(fbar, …)` from an all-ones array). -/
+def jointCellAt {α} [Add α] [Sub α] [Mul α] [Div α] [Inhabited α]
+    (one half : α) (c : Nat → Option Nat) (F : Nat → Option α → α → α)
+    (coords : Array (Array α)) (I : Array Nat) : α :=
+  (List.range coords.size).foldl (fun acc i => acc * cellAvgAt half c F coords I i) one
+
+/-- probability per cell: the density times every delta, in order (`cell_prob *= delta`). -/
+def cellProbAt {α} [Add α] [Sub α] [Mul α] [Div α] [Inhabited α]
+    (one half : α) (c : Nat → Option Nat) (F : Nat → Option α → α → α)
+    (coords : Array (Array α)) (deltas : List α) (I : Array Nat) : α :=
+  deltas.foldl (· * ·) (jointCellAt one half c F coords I)
+
+/-- all cell probabilities, flattened in C order -/
+def gridProbs {α} [Add α] [Sub α] [Mul α] [Div α] [Inhabited α]
+    (one half : α) (c : Nat → Option Nat) (F : Nat → Option α → α → α)
+    (coords : Array (Array α)) (deltas : List α) : List α :=
+  (multiIndices (coords.toList.map Array.size)).map fun I =>
+    cellProbAt one half c F coords deltas I.toArray
+
+/-- grid axis of `_compute`: `np.arange(min, max + delta, delta)` -/
+def gridAxis (lo hi delta : Float) : List Float := arange lo (hi + delta) delta
+
+/-- `fm = prob_m / delta_0 / delta_1 …` -/
+def fmOf {α} [Div α] (probM : α) (deltas : List α) : α := deltas.foldl (· / ·) probM
+
 end VirVerif
